@@ -48,6 +48,15 @@ MinMaxCases ==
     \cup UNION {{CP(nm, a, <<sg>>) : a \in Variants(VS(w), n, {BVC(1, w)})} :
                     nm \in {"MinBV", "MaxBV"}, sg \in {0, 1}, w \in {2, 3}, n \in 1..4}
     \cup {C("Abs", <<x>>) : x \in {IS[1], RS[1], IntC(-3), RealC(<<-1, 2>>), IntC(0)}}
+    \* arguments that already LOOK like an expansion (ite between t and 0 - t under an unrelated condition, a min / max
+    \* shaped ite): a derived constructor must not recognise them by shape
+    \cup {C("Abs", <<x>>) : x \in {Op("ite", <<BS[1], IS[1], Op("minus", <<IntC(0), IS[1]>>)>>),
+                                     Op("ite", <<Op("lt", <<IS[1], IntC(0)>>), IS[1], Op("minus", <<IntC(0), IS[1]>>)>>),
+                                     Op("ite", <<BS[1], RS[1], Op("minus", <<RealC(<<0, 1>>), RS[1]>>)>>),
+                                     Op("ite", <<Op("lt", <<IntC(0), IS[1]>>), IS[1], Op("minus", <<IntC(0), IS[1]>>)>>),
+                                     Op("minus", <<IntC(0), IS[1]>>), Op("plus", <<IS[1], IS[2]>>)}}
+    \cup {C(nm, <<Op("ite", <<BS[1], IS[1], IS[2]>>), y>>) : nm \in {"Min", "Max"}, y \in {IS[1], IS[2], IS[3]}}
+    \cup {C(nm, <<Op("ite", <<Op("lt", <<IS[1], IS[2]>>), IS[2], IS[1]>>), y>>) : nm \in {"Min", "Max"}, y \in {IS[1], IS[2]}}
 
 BVCases ==
     UNION {{C(nm, Pre(VS(w), 2)), C(nm, <<VS(w)[1], VS(w)[1]>>)} :
